@@ -50,6 +50,24 @@ MUTANTS = {
     'short_record_padded': (P + 'kd_buf_parser.py', "                buf = reader.read(KEVENT_SIZE)\n                yield from_kd_buf(buf)", "                buf = reader.read(KEVENT_SIZE).ljust(KEVENT_SIZE, b'\\x00')\n                yield from_kd_buf(buf)", ['C06']),
     'v2_short_record_padded': (P + 'kd_buf_parser.py', "            if not buf:\n                break\n            yield from_kd_buf(buf)", "            if not buf:\n                break\n            yield from_kd_buf(buf.ljust(KEVENT_SIZE, b'\\x00'))", ['C06']),
     'seek_no_eof_exit': (P + 'kd_buf_parser.py', "        if not next_byte:\n            raise EOFError(f'Reached the end of the stream while looking for {data!r}')\n", "", ['C06']),
+    # ---- property-conformant refactorings at generator grain: the checks must NOT alarm (expected [])
+    'logs_extend_tables_upfront': (P + 'kd_buf_parser.py', "        for event in log_events:\n            log_event = OsLogEvent.from_raw_log_event(event, log_strings)\n            if log_event.process and log_event.thread_identifier:\n                self.threads_pids[log_event.thread_identifier] = log_event.process_identifier\n                self.pids_names[log_event.process_identifier] = log_event.process\n            yield log_event",
+                                   "        decoded = [OsLogEvent.from_raw_log_event(event, log_strings) for event in log_events]\n        for log_event in decoded:\n            if log_event.process and log_event.thread_identifier:\n                self.threads_pids[log_event.thread_identifier] = log_event.process_identifier\n                self.pids_names[log_event.process_identifier] = log_event.process\n        yield from decoded", ['C14']),
+    'kevents_binds_subclass_at_call': (P + 'pykdebugparser.py', "        if filter_class or self.filter_subclass:\n            events_generator = filter(lambda e: self._is_eventid_allowed(e.eventid, filter_class), events_generator)",
+                                       "        if filter_class or self.filter_subclass:\n            fc, fs = tuple(filter_class), tuple(self.filter_subclass)\n            events_generator = filter(lambda e: (e.eventid >> 24 in fc) or (e.eventid >> 16 in fs), events_generator)", []),
+    'traces_reads_header_at_call': (P + 'pykdebugparser.py', "        trace_generator = traces_parser.feed_generator(self._kevents(kdebug, None, filter_class))\n",
+                                    "        import itertools\n        _ev = self._kevents(kdebug, None, filter_class)\n        _first = list(itertools.islice(_ev, 1))      # header and thread map are read when the request is made\n        trace_generator = traces_parser.feed_generator(itertools.chain(_first, _ev))\n", []),
+    # ---- state in the wrong home (the variants of Sessions.tla / Readers.tla as source changes)
+    'cls_on_object': (P + 'pykdebugparser.py', "        if filter_class or self.filter_subclass:\n            events_generator = filter(lambda e: self._is_eventid_allowed(e.eventid, filter_class), events_generator)",
+                      "        self._fc = filter_class\n        if filter_class or self.filter_subclass:\n            events_generator = filter(lambda e: self._is_eventid_allowed(e.eventid, self._fc), events_generator)", ['C06', 'C12', 'C13']),
+    'codes_on_object': (P + 'pykdebugparser.py', "        return map(lambda e: self._format_kevent(e, trace_codes_map), self.kevents(kdebug))",
+                        "        self._tcm = trace_codes_map\n        return map(lambda e: self._format_kevent(e, self._tcm), self.kevents(kdebug))", ['C19']),
+    'img_clear_at_end': (P + 'pykdebugparser.py', "        self.dyld_addresses.clear()\n        self.dyld_uuids.clear()\n        callstacks_parser = CallstacksParser(self.dyld_addresses, self.dyld_uuids)\n        return callstacks_parser.feed_generator(self.traces(kdebug, trace_codes))",
+                         "        callstacks_parser = CallstacksParser(self.dyld_addresses, self.dyld_uuids)\n        def _g():\n            try:\n                yield from callstacks_parser.feed_generator(self.traces(kdebug, trace_codes))\n            finally:\n                self.dyld_addresses.clear()\n                self.dyld_uuids.clear()\n        return _g()", ['C15']),
+    'shared_default_tables': (P + 'kd_buf_parser.py', "    def __init__(self, threads_pids=None, pids_names=None):\n        self.threads_pids = {} if threads_pids is None else threads_pids\n        self.pids_names = {} if pids_names is None else pids_names",
+                              "    def __init__(self, threads_pids={}, pids_names={}):\n        self.threads_pids = threads_pids\n        self.pids_names = pids_names", ['C02']),
+    'idx_on_object': (P + 'kd_buf_parser.py', "                log_strings = {v: k for k, v in plistlib.loads(block.data)['StringIndex'].items()}\n\n        for event in log_events:\n            log_event = OsLogEvent.from_raw_log_event(event, log_strings)",
+                      "                log_strings = {v: k for k, v in plistlib.loads(block.data)['StringIndex'].items()}\n        self._ls = log_strings\n\n        for event in log_events:\n            log_event = OsLogEvent.from_raw_log_event(event, self._ls)", ['C03']),
     'traces_materialised_sorted': (P + 'pykdebugparser.py', "        trace_generator = traces_parser.feed_generator(self._kevents(kdebug, None, filter_class))\n", "        trace_generator = iter(traces_parser.feed_generator(sorted(self._kevents(kdebug, None, filter_class), key=lambda e: e.timestamp)))\n", []),
     'count_off_by_one': (P + '__main__.py', "        if i == count:\n            break\n        print(obj)", "        print(obj)\n        if i == count:\n            break", ['C06']),
     'cs_end_timestamp': (P + 'callstacks_parser.py', "yield Callstack(trace.ktraces[0].timestamp, trace.ktraces[0].tid, frames)", "yield Callstack(trace.ktraces[-1].timestamp, trace.ktraces[0].tid, frames)", ['C15']),
